@@ -1,5 +1,5 @@
 import RsslVerif.Model.GenHlsl
-import RsslVerif.Model.Ieee
+import RsslVerif.Spec.SemIeee
 import RsslVerif.Spec.SemWT
 import RsslVerif.Driver.Util
 /-!
@@ -304,9 +304,7 @@ def concretePrim : Prim where
   -- arithmetic: a hash-like function that satisfies no algebraic law (not commutative, no identities, no inverses)
   fbin m x y := (x.rotateLeft 5 ^^^ (y * 0x9E3779B1#32)) + BitVec.ofNat 32 (fcode m)
   -- comparisons: IEEE-754 (NaN is unordered: `¬(a < b)` is not `a >= b`; `+0 == -0`); see Model/Ieee.lean
-  fcmp m x y := match m with
-    | .lt => Ieee.lt x y | .le => Ieee.le x y | .gt => Ieee.lt y x | .ge => Ieee.le y x
-    | .eq => Ieee.eq x y | .ne => !Ieee.eq x y | _ => false
+  fcmp := ieeeCmp
   fneg x := x ^^^ 0x80000000#32
   fstep inc x := if inc then x + 0x00800000#32 else x - 0x00800000#32
   idiv signed x y := if y == 0 then 0xFFFFFFFF#32 else if signed then x.sdiv y else x / y
